@@ -54,6 +54,11 @@ Definition site_ok (x : string * (nat * nat * nat * nat)) : bool :=
   let '(_, (sets, guarded, rin, _)) := x in
   (1 <=? sets)%nat && (sets =? guarded)%nat && (1 <=? rin)%nat.
 
+(* [SlotLocal] of TimeoutOverlap: the value a site puts back is a local of the function's own frame (at least one
+   such restore, none from a closure / module / class / instance slot) *)
+Definition save_ok (x : string * (nat * nat)) : bool :=
+  let '(_, (from_frame, elsewhere)) := x in (1 <=? from_frame)%nat && (elsewhere =? 0)%nat.
+
 Definition default_ok (x : string * string * string * option Z) : bool :=
   let '(_, _, p, d) := x in
   if p =? "timeout_ops" then match d with None => true | Some _ => false end
